@@ -1,5 +1,5 @@
-(* C18 — HDLC transport reassembles segmented responses exactly, for every segmentation (partial). *)
-From Dlms Require Import Base AddrModel FrameModel HdlcConnModel TransportModel TransportProofs.
+(* C18 — HDLC transport reassembles segmented responses exactly, for every segmentation. *)
+From Dlms Require Import Base AddrModel FrameModel HdlcConnModel HdlcStreamProofs TransportModel TransportProofs TransportE2E.
 
 (* a request that fits the maximum information size goes out as ONE information frame whose payload
    is the LLC command header followed by the APDU, unsegmented, numbered with the link's counters *)
@@ -33,5 +33,107 @@ Theorem C18_send_strips_llc : forall t telegram t1 frs n t2 answer,
   t_send t telegram = (Ok answer, t2).
 Proof. exact send_strips_llc. Qed.
 
+(* ---------- end to end over the scripted serial port ----------
+   The transport is idle with nothing buffered; the meter's answer is ANY list of information
+   frames `items` (each a whole, final frame the link accepts at its point: `chain`; all but the
+   last segmented: `is_segmentation`), each made readable only after the client's previous write
+   (the request, then one receive-ready frame per segment); the serial line hands bytes over in
+   pieces of ANY positive sizes (`pos_sched`; read_until never reads past the next flag byte);
+   the request fits one information field.  Then send():
+   - writes exactly the request frame (LLC command header + APDU, unsegmented, numbered from the
+     link) followed by one receive-ready frame per segment, each carrying the link's receive
+     number after that segment (`rr_list`);
+   - returns exactly the answer APDU - the concatenated payloads without the LLC response header;
+   - leaves the link in the state the exchange ends in (IDLE), nothing buffered, nothing unread. *)
+Theorem C18_send_end_to_end : forall t telegram items later answer l_end,
+  t_out t = [] -> c_buf (t_conn t) = [] -> c_pos (t_conn t) = 1%nat -> l_state (c_link (t_conn t)) = 1 ->
+  readable (t_ser t) = [] -> pending (t_ser t) = map it_F items ++ later -> pos_sched (t_ser t) ->
+  (0 < length (LLC_COMMAND ++ telegram) <= t_max t)%nat -> (15 <= t_max t <= 2032)%nat ->
+  chain (after_request (c_link (t_conn t))) items l_end -> Forall answer_item items -> is_segmentation (map key items) ->
+  concat (map (fun it => payload_of (it_f it)) items) = LLC_RESPONSE ++ answer ->
+  let l := c_link (t_conn t) in
+  exists fb s',
+    frame_to_bytes KInfo {| f_dest := t_server t; f_src := t_client t; f_payload := Some (LLC_COMMAND ++ telegram);
+                            f_segmented := false; f_final := true; f_ssn := server_ssn l; f_rsn := server_rsn l |} = Ok fb
+    /\ t_send t telegram = (Ok answer, upd t {| c_link := l_end; c_buf := []; c_pos := 1 |} [] s')
+    /\ written s' = written (t_ser t) ++ fb :: rr_list t (after_request l) items
+    /\ readable s' = [] /\ pending s' = later.
+Proof. exact send_end_to_end. Qed.
+
+(* the receive-ready frame acknowledges the segment just received: N(R) = N(S) + 1 mod 8, and the
+   link's numbering stays consistent, so this holds for every later segment too (numbers wrap) *)
+Theorem C18_rr_number : forall l ssn rsn l1, client_ssn l <= 7 -> server_rsn l = client_ssn l ->
+  link_on_frame l KInfo ssn rsn = (Ok tt, l1) ->
+  server_rsn l1 = (ssn + 1) mod 8 /\ server_rsn l1 = client_ssn l1 /\ client_ssn l1 <= 7.
+Proof. exact rr_number. Qed.
+
+(* connect(): SNRM out, the UA - delivered in pieces of any positive sizes - in, link connected (IDLE);
+   disconnect(): DISC out, UA in, link disconnected (NOT_CONNECTED) *)
+Theorem C18_connect : forall t F f later,
+  t_out t = [] -> c_buf (t_conn t) = [] -> c_pos (t_conn t) = 1%nat -> l_state (c_link (t_conn t)) = 0 ->
+  readable (t_ser t) = [] -> pending (t_ser t) = F :: later -> pos_sched (t_ser t) -> (15 <= t_max t)%nat ->
+  frame_from_bytes KUa F = Ok f ->
+  exists fb s', frame_to_bytes KSnrm (unnumbered_frame t) = Ok fb
+    /\ t_connect t = (EFrame KUa f, upd t {| c_link := set_state (c_link (t_conn t)) 1; c_buf := []; c_pos := 1 |} [] s')
+    /\ written s' = written (t_ser t) ++ [fb] /\ readable s' = [] /\ pending s' = later.
+Proof. exact connect_end_to_end. Qed.
+Theorem C18_disconnect : forall t F f later,
+  t_out t = [] -> c_buf (t_conn t) = [] -> c_pos (t_conn t) = 1%nat -> l_state (c_link (t_conn t)) = 1 ->
+  readable (t_ser t) = [] -> pending (t_ser t) = F :: later -> pos_sched (t_ser t) -> (15 <= t_max t)%nat ->
+  frame_from_bytes KUa F = Ok f ->
+  exists fb s', frame_to_bytes KDisc (unnumbered_frame t) = Ok fb
+    /\ t_disconnect t = (EFrame KUa f, upd t {| c_link := set_state (c_link (t_conn t)) 0; c_buf := []; c_pos := 1 |} [] s')
+    /\ written s' = written (t_ser t) ++ [fb] /\ readable s' = [] /\ pending s' = later.
+Proof. exact disconnect_end_to_end. Qed.
+
+(* non-vacuity: a session connect / send / disconnect; the answer comes in two segments whose
+   payloads contain the flag byte; reads of 1, 2, 3, 5 bytes then as much as asked for *)
+Definition ex_ua : bytes := [126; 160; 10; 33; 2; 35; 115; 242; 85; 71; 15; 126].
+Definition ex_a1 : bytes := [126; 168; 16; 33; 2; 35; 48; 221; 252; 230; 231; 0; 196; 1; 126; 122; 232; 126].
+Definition ex_a2 : bytes := [126; 160; 13; 33; 2; 35; 50; 163; 54; 126; 0; 9; 117; 194; 126].
+Definition ex_fa1 : frame :=
+  {| f_dest := (16, None, false); f_src := (1, Some 17, true); f_payload := Some [230; 231; 0; 196; 1; 126];
+     f_segmented := true; f_final := true; f_ssn := 0; f_rsn := 1 |}.
+Definition ex_fa2 : frame :=
+  {| f_dest := (16, None, false); f_src := (1, Some 17, true); f_payload := Some [126; 0; 9];
+     f_segmented := false; f_final := true; f_ssn := 1; f_rsn := 1 |}.
+Definition ex_items : list item :=
+  [ {| it_pk := KInfo; it_F := ex_a1; it_f := ex_fa1; it_shared := false |};
+    {| it_pk := KInfo; it_F := ex_a2; it_f := ex_fa2; it_shared := false |} ].
+Definition ex_t0 : transport :=
+  {| t_conn := conn_init; t_out := [];
+     t_ser := {| pending := [ex_ua; ex_a1; ex_a2; ex_ua]; readable := []; sched := [1; 2; 3; 5]%nat; written := [] |};
+     t_client := (16, None, false); t_server := (1, Some 17, true); t_max := 128 |}.
+Definition ex_t1 : transport := snd (t_connect ex_t0).
+Definition ex_t2 : transport := snd (t_send ex_t1 [192; 1; 193; 0]).
+Example C18_nonvacuous :
+  (* connect: hypotheses of C18_connect *)
+  (l_state (c_link (t_conn ex_t0)) = 0 /\ pos_sched (t_ser ex_t0) /\ exists f, frame_from_bytes KUa ex_ua = Ok f) /\
+  (* send: hypotheses of C18_send_end_to_end on the connected transport *)
+  (t_out ex_t1 = [] /\ c_buf (t_conn ex_t1) = [] /\ l_state (c_link (t_conn ex_t1)) = 1 /\ readable (t_ser ex_t1) = [] /\
+   pending (t_ser ex_t1) = map it_F ex_items ++ [ex_ua] /\ pos_sched (t_ser ex_t1) /\
+   (exists l_end, chain (after_request (c_link (t_conn ex_t1))) ex_items l_end) /\
+   Forall answer_item ex_items /\ is_segmentation (map key ex_items) /\
+   concat (map (fun it => payload_of (it_f it)) ex_items) = LLC_RESPONSE ++ [196; 1; 126; 126; 0; 9]) /\
+  fst (t_send ex_t1 [192; 1; 193; 0]) = Ok [196; 1; 126; 126; 0; 9] /\
+  length (written (t_ser ex_t2)) = 3%nat /\
+  (* disconnect *)
+  l_state (c_link (t_conn ex_t2)) = 1 /\ l_state (c_link (t_conn (snd (t_disconnect ex_t2)))) = 0.
+Proof.
+  split; [split; [reflexivity|split; [repeat constructor|eexists; vm_compute; reflexivity]]|].
+  split.
+  - split; [vm_compute; reflexivity|]. split; [vm_compute; reflexivity|]. split; [vm_compute; reflexivity|].
+    split; [vm_compute; reflexivity|]. split; [vm_compute; reflexivity|].
+    split; [vm_compute; repeat constructor|].
+    split.
+    + eexists. eapply chain_cons; [vm_compute; reflexivity|vm_compute; reflexivity|vm_compute; reflexivity|].
+      eapply chain_cons; [vm_compute; reflexivity|vm_compute; reflexivity|vm_compute; reflexivity|]. apply chain_nil.
+    + split; [repeat constructor|]. split; [vm_compute; repeat split|vm_compute; reflexivity].
+  - repeat split; vm_compute; reflexivity.
+Qed.
+
 Print Assumptions C18_collect_any_segmentation.
 Print Assumptions C18_send_strips_llc.
+Print Assumptions C18_send_end_to_end.
+Print Assumptions C18_connect.
+Print Assumptions C18_disconnect.
